@@ -25,6 +25,7 @@ type L2Case struct {
 		Log  []L2Entry `json:"log"`
 		Snap []uint64  `json:"snap"` // [idx, term] or empty
 		DC   uint64    `json:"dcommit"`
+		SCfg string    `json:"scfg"` // "other": the snapshot carries a later configuration than the log's bootstrap entry
 	} `json:"img"`
 	Flavor string   `json:"flavor"` // "", "mono", "ct"
 	Steps  []L2Step `json:"steps"`
@@ -122,8 +123,13 @@ func RunL2Case(t *testing.T, cs *L2Case) *Cluster {
 	d.logVer++
 	d.commit = cs.Img.DC
 	if len(cs.Img.Snap) == 2 && cs.Img.Snap[0] > 0 {
+		scfg, scfgIdx := mkConfiguration(l2Cfg), uint64(1)
+		if cs.Img.SCfg == "other" {
+			scfg, scfgIdx = mkConfiguration(map[string]string{"n1": "V", "n2": "V", "n3": "V", "n4": "N"}), cs.Img.Snap[0]
+			c.cfgStr(scfg)
+		}
 		d.snaps = append(d.snaps, &snapRec{ID: fmt.Sprintf("%d-%d-img", cs.Img.Snap[1], cs.Img.Snap[0]), Index: cs.Img.Snap[0], Term: cs.Img.Snap[1],
-			Cfg: mkConfiguration(l2Cfg), CfgIndex: 1, Data: encodeContent(nil), Seq: 1})
+			Cfg: scfg, CfgIndex: scfgIdx, Data: encodeContent(nil), Seq: 1})
 		d.snapVer++
 	}
 	c.cfgStr(mkConfiguration(l2Cfg))
